@@ -6,7 +6,9 @@ non-boundary or vec![0; n].  What TLC does here:
 1. Mutants.tla (Dev = {}): enumerates the input families of the quantifier as states - all strings of <= MaxShort
    symbols over a per-parser protocol alphabet, every prefix of every seed, single-site mutants (length fields
    <- boundary / huge values, CR/LF/colon/space removed or doubled, 2-/3-/4-byte and invalid UTF-8 at every
-   position, WebSocket length codes), nesting 1..400 (+ deeper) - takes the Parse action on each and checks the
+   position, one multi-byte representative of every Unicode class Rust's char predicates / case mappings distinguish
+   (Nd of 2, 3, 4 bytes, No, Nl, non-ASCII White_Space, length-changing case mappings, Mn, Co) inserted at and
+   replacing every position, WebSocket length codes), nesting 1..400 (+ deeper) - takes the Parse action on each and checks the
    property ParseTotal (ParseGuard: outcome in {ok, err}, peak <= K*(len+C)).  For every named deviation (the
    defects of the code as it stood + plausible bugs) a sensitivity config must be VIOLATED inside the families;
    the witness TLC prints is replayed on the real code.
@@ -35,7 +37,8 @@ D = os.path.join(SPEC, "mutants")
 
 # sensitivity configs MC_Mutants_dev_<name>.cfg (ClaimedLengthAlloc: one per site family - request, response, frame)
 DEVS = ["SlicePanicReq", "NoColonPanicResp", "ClaimedLengthAlloc_req", "ClaimedLengthAlloc_resp", "ClaimedLengthAlloc_ws",
-        "ParseSizePanic", "HostQuotePanic", "ConfRecursionUnbounded", "JsonDepthUnchecked", "Utf8Unwrap", "EmptyInputIndex"]
+        "ParseSizePanic", "HostQuotePanic", "ConfRecursionUnbounded", "JsonDepthUnchecked", "Utf8Unwrap", "EmptyInputIndex",
+        "UnicodeNumericSlice", "UnicodeNumericSlice_short"]
 SUP_BUGS = [("MC_ParseSup_bug1.cfg", "BlameLastSent"), ("MC_ParseSup_bug2.cfg", "NoSkipAfterDeath"),
             ("MC_ParseSup_bug3.cfg", "ReapBeforeDrain"), ("MC_ParseSup_bug4.cfg", "BlameAfterSelfExit")]
 MUT_ACTIONS = ["EnumShort", "EnumMut", "Parse"]
@@ -349,7 +352,7 @@ def run(tier, replay):
     pool.shutdown()
 
     ctx.cov["rule"] = ("inputs = families enumerated by TLC from Mutants.tla (all strings of <=%d alphabet symbols per parser, every prefix of every "
-                       "seed, single-site mutants, WebSocket length codes, nesting; the second generation config uses one symbol less) + seeded random bytes / "
+                       "seed, single-site mutants incl. 16 Unicode-class characters at every position (quick: every 2nd position + all number-like sites), WebSocket length codes, nesting; the second generation config uses one symbol less) + seeded random bytes / "
                        "token soup / multi-site mutants / deep / big; "
                        "each run as one parser call per delivery (evaluations = calls, every one judged by TLC). distinct_nontrivial = distinct "
                        "(parser, bytes) inputs that are derived from a seed message (prefix, mutant, nest, wslen, rand-mut, deep, big, witness) or were "
